@@ -31,6 +31,10 @@ pub struct FamOpts {
     pub breaking: Vec<BreakKind>,
     pub send_sync: bool,
     pub send_only: bool,
+    /// scripted: def 0 is `struct { f0: usize }`; revision 1 removes f0 (AbiRemoved) and adds a u64 field with a
+    /// default value in its place, and a method takes the struct by reference: both revisions then have one
+    /// 8-byte integer at offset 0, but they are different fields
+    pub ref_twin: bool,
     pub tag: &'static str,
 }
 
@@ -433,6 +437,21 @@ pub fn gen_family(rng: &mut Rng, idx: usize, o: &FamOpts) -> Family {
     let mut g = G { rng, defs: vec![], mcount: 0 };
     g.gen_defs(idx);
     let mut methods = vec![g.m_base()];
+    if o.ref_twin {
+        g.defs[0] = DataDef {
+            name: format!("S{}x0", idx),
+            kind: DKind::Struct(vec![DField { name: "f0".into(), ty: DTy::Prim(Prim::Usize), added: 0, removed_at: None, default: DefaultKind::Trait, default_dv: None }]),
+            repr_u8: false,
+        };
+        methods.push(Method {
+            name: g.mname("roundtrip"),
+            mut_self: true,
+            is_async: false,
+            args: G::args_named(vec![ArgKind::Ref(DTy::Def(0))]),
+            ret: RetKind::Val(DTy::Def(0)),
+            class: "roundtrip".into(),
+        });
+    }
     if o.wide {
         methods.push(g.m_wide(33));
         methods.push(g.m_wide(63));
@@ -477,6 +496,13 @@ pub fn gen_family(rng: &mut Rng, idx: usize, o: &FamOpts) -> Family {
         let nedits = g.rng.range(1, 2);
         // the first data edit of a family is a field addition (the documented example), later
         // ones are chosen freely
+        if o.ref_twin && k == 1 {
+            if let DKind::Struct(fields) = &mut g.defs[0].kind {
+                fields[0].removed_at = Some(1);
+                fields.insert(0, DField { name: "g0v1".into(), ty: DTy::Prim(Prim::U64), added: 1, removed_at: None, default: DefaultKind::Val("38".into()), default_dv: Some(DV::N(38)) });
+            }
+            edits.push("field_replaced_by_other_field_of_same_layout".to_string());
+        }
         for e in 0..nedits {
             let want = if k == 1 && e == 0 { 0 } else { g.rng.weighted(&[4, 3, 3, 3]) };
             if want == 3 {
@@ -581,13 +607,14 @@ pub fn gen_batch(seed: u64, scale: usize) -> Batch {
         fams.push(gen_family(&mut r, idx, &o));
         idx += 1;
     };
-    let base = FamOpts { n_revs: 1, async_trait: false, futures: false, wide: false, breaking: vec![], send_sync: false, send_only: false, tag: "compat" };
+    let base = FamOpts { n_revs: 1, async_trait: false, futures: false, wide: false, breaking: vec![], send_sync: false, send_only: false, ref_twin: false, tag: "compat" };
     // fixed part
     push(&mut fixed, FamOpts { wide: true, tag: "wide", ..base.clone() }, &mut fams);
     push(&mut fixed, FamOpts { n_revs: 2, async_trait: true, send_sync: true, tag: "async_trait", ..base.clone() }, &mut fams);
     push(&mut fixed, FamOpts { n_revs: 2, futures: true, tag: "boxed_future", ..base.clone() }, &mut fams);
     push(&mut fixed, FamOpts { n_revs: 3, ..base.clone() }, &mut fams);
     push(&mut fixed, FamOpts { n_revs: 2, send_only: true, tag: "send_only", ..base.clone() }, &mut fams);
+    push(&mut fixed, FamOpts { n_revs: 2, ref_twin: true, tag: "ref_twin", ..base.clone() }, &mut fams);
     push(&mut fixed, FamOpts { n_revs: 4, send_sync: true, ..base.clone() }, &mut fams);
     push(&mut fixed, FamOpts { n_revs: 2, breaking: all_breaks.to_vec(), tag: "breaking", ..base.clone() }, &mut fams);
     push(&mut fixed, FamOpts { n_revs: 2, async_trait: true, send_sync: true, breaking: vec![BreakKind::ArgTypeChanged], tag: "breaking", ..base.clone() }, &mut fams);
